@@ -39,14 +39,14 @@ PROP = {
         "regions, channel operations, select alternatives; Go mutex/RWMutex/channel/select/close semantics; the composition of the two models is an "
         "argument on paper (M_sub lets senders arrive at any time, which over-approximates what M_topic starts)",
         "structural facts (skeletons of the GoChannel functions, facts/expected) re-extracted from the source on every run",
-        "trace conformance by subset construction (lean/WmModel/Conf.lean, GcConf.lean, GcTopicConf.lean, GcRegConf.lean) and the monitors (lean/WmModel/GcMon.lean)",
+        "trace conformance by subset construction (lean/WmModel/Conf.lean, GcConf.lean, GcTopicConf.lean, GcRegConf.lean, GcDecConf.lean) and the monitors (lean/WmModel/GcMon.lean)",
         "harness/gc (one event log under one mutex; consumer settlements and cancels logged before the call, hook events inside the critical sections; "
         "liveness bound 30 s per wait; goroutine census by stack dump)",
         "Go race detector",
     ],
     "assumptions": ['data-race freedom and goroutine-leak freedom are runtime facts (race detector, stack census), not theorems'],
     "level_text": 'Proof (Lean 4): (a) subscription model M_sub, every reachable state: the close protocol never panics (no double close, no send on a closed channel), closes the output channel at most once and can always make progress without the consumer once cancel/Close was signalled; (b) registry model M_reg (RWMutex with writer announcement, topic mutexes, closedLock, subscribersWg; any number of Publish/Subscribe/Close calls and unsubscribe goroutines, persistent or not, blocking or not, every interleaving): the registry never panics, a Close call that has not returned is never stuck (close_never_stuck), threads cannot spin (thread_steps_bounded), hence every schedule ends after at most phi(s) steps with every Close returned (close_terminates), and once any Close has returned no unsubscribe goroutine or half-done Subscribe is left, every subscription is removed, the backlog is dropped and Publish/Subscribe fail (after_close_returned, after_close_errors), and a subscription leaves the registry only through its own unsubscribe goroutine, which gets there only after its own context was cancelled or the Pub/Sub is closing (removed_only_after_own_cancel_or_close: cancelling one leaves the others). (c) decorator model M_dec (message/decorator.go: subscribeWg, subscribeWgLock, closing+Once, the pump goroutine; any number of concurrent Subscribe/Close calls, a consumer that may stop reading, any inner-subscriber behaviour C07 allows): never panics (no double close, WaitGroup never negative, Add never concurrent with Wait), Close is never stuck and terminates, after Close every pump finishes on its own and closes its out channel exactly once, nothing is dropped before closing (dec_* theorems). The absence of leftover goroutines in the real process and data races are checked on forced interleavings of the real code.',
-    "level_note": 'M_reg and M_sub are composed in Lean (M_prod, lean/WmModel/GcProd.lean: after_close_channel_closed - once any Close call has returned, the M_sub instance of every subscription is closed, its output channel is closed, nothing panicked). Partial: M_dec is composed with them on paper - it assumes of its inner subscriber what the M_reg/M_sub theorems state (Close returns only after every handed-out channel is closed; Subscribe fails afterwards), M_reg abstracts what a sender goroutine does inside a subscription (that is M_sub; the two are composed on paper: M_sub lets senders arrive at any time). All are exercised by the pairwise park/release enumeration with a liveness bound, the goroutine census and -race; recorded hook streams must be traces of M_sub and M_reg.',
+    "level_note": 'M_reg and M_sub are composed in Lean (M_prod, lean/WmModel/GcProd.lean: after_close_channel_closed - once any Close call has returned, the M_sub instance of every subscription is closed, its output channel is closed, nothing panicked). Partial: M_dec is composed with them on paper - it assumes of its inner subscriber what the M_reg/M_sub theorems state (Close returns only after every handed-out channel is closed; Subscribe fails afterwards), M_reg abstracts what a sender goroutine does inside a subscription (that is M_sub; the two are composed on paper: M_sub lets senders arrive at any time). All are exercised by the pairwise park/release enumeration with a liveness bound, the goroutine census and -race; recorded hook streams must be traces of M_sub and M_reg, and the event streams of the real decorator around a scripted inner subscriber (harness/cmd/c07/dec.go: concurrent Subscribe/Close calls, refused and late Subscribe calls, cancelled channels, consumers that stop reading) must be traces of M_dec (GcDecConf.lean).',
     "technique": "Lean 4 invariant proofs over LTS models of the subscription and the topic registry + trace-inclusion conformance and property monitors on hook-instrumented executions of the real GoChannel",
     "explanation": 'Proof (Lean 4), for every reachable state of the subscription model, that its close protocol never panics (no double close, no send on a closed channel), closes the output channel at most once and can always make progress without the consumer once cancel/Close was signalled; termination of whole-Pub/Sub Close, the decorators, and the absence of leftover goroutines/data races are checked on forced interleavings of the real code.',
 }
